@@ -14,6 +14,7 @@ from ..core import rule
 from ..model import AnalysisError
 from ..norm import Norm
 from ..paths import walk_no_nested, Walker
+from ..layout import short
 from ..effects import is_call_to, writes_in
 from .c13 import check_set_value_write_through, spec_attrs
 
@@ -212,3 +213,54 @@ def r18_8(ctx):
     ok = len(own) >= 1 and len(rec) == 1 and scg.enclosing_loops(rec[0]) and ast.unparse(scg.enclosing_loops(rec[0])[-1][1]) == "self._stages"
     ctx.check(ok, "Stage._untranscribe_recurse un-transcribes its own method and recurses into every sub-stage", detail="sub-stage methods keep their transcription", expected="self._method.untranscribe(self, ...); for s in self._stages: s._untranscribe_recurse(...)",
               found="own: %s; recursion: %s" % ([ast.unparse(c)[:50] for c in own], [ast.unparse(c)[:50] for c in rec]), fi=g)
+
+
+def _opti_bound_attrs(P, cname):
+    """attributes of a method class that are assigned an Opti-bound object (refused by the pickle hook) by any method of its MRO"""
+    holders = set()
+    for k in P.classes.values():
+        i = k.methods.get("__init__")
+        if i is not None and any(isinstance(st, ast.Assign) and isinstance(st.value, ast.Call) and ast.unparse(st.value.func).split(".")[-1] in ("Opti", "OptiWrapper") for st in walk_no_nested(i.node)):
+            holders.add(k.name)
+    out = {}
+    for k in P.mro(cname):
+        for m in k.methods.values():
+            for st in walk_no_nested(m.node):
+                if not (isinstance(st, ast.Assign) and len(st.targets) == 1 and isinstance(st.targets[0], ast.Attribute) and ast.unparse(st.targets[0].value) == "self"):
+                    continue
+                v = st.value
+                bound = (isinstance(v, ast.Attribute) and v.attr == "advanced") or \
+                        (isinstance(v, ast.Call) and ast.unparse(v.func).split(".")[-1] in ({"Opti", "OptiWrapper"} | holders))
+                if bound:
+                    out.setdefault(st.targets[0].attr, (m, st))
+    return out
+
+
+@rule("R18.9", min_instances=5, desc="every attribute of a method object that holds an Opti-bound object while transcribed (the Opti wrapper, an advanced view, a constraint inspector) is None again after un-transcription (simulated untranscribe + main_untranscribe), whatever form clean() is written in")
+def r18_9(ctx):
+    from ..sim import Sim, fresh_obj
+    from ..layout import Sym, LayoutUnknown
+    P = ctx.prog
+    total = 0
+    for cname in sorted(P.subclasses("DirectMethod")):
+        attrs = _opti_bound_attrs(P, cname)
+        if not attrs:
+            continue
+        me = fresh_obj("self", **{a: Sym("live_" + a) for a in attrs})
+        try:
+            for name in ("untranscribe", "main_untranscribe"):
+                g = P.resolve(cname, name)
+                if g is None:
+                    raise AnalysisError("%s.%s missing" % (cname, name))
+                sim = Sim(P, hooks={"HashOrderedDict": lambda s_, r, a, k, n: {}, "HashDict": lambda s_, r, a, k, n: {}, "HashList": lambda s_, r, a, k, n: [], "OrderedDict": lambda s_, r, a, k, n: {}})
+                sim.self_class = cname
+                sim.call(g, [me, Sym("stage")], {})
+        except LayoutUnknown as e:
+            raise AnalysisError("%s un-transcription could not be simulated: %s" % (cname, e))
+        for a, (m, st) in sorted(attrs.items()):
+            total += 1
+            v = me.attrs.get(a)
+            ctx.check(v is None, "%s: self.%s is released by un-transcription" % (cname, a), detail="an Opti-bound object survives un-transcription: Ocp.save() raises 'Opti cannot be serialized' after a transcription with this method",
+                      expected="self.%s is None after untranscribe()/main_untranscribe()" % a, found="still %s (assigned in %s: %s)" % (short(v) if v is not None else None, m.qualname, ast.unparse(st)[:80]), fi=P.resolve(cname, "clean") or m)
+    if total < 5:
+        raise AnalysisError("R18.9: only %d Opti-bound attributes found (expected >= 5)" % total)
